@@ -114,6 +114,14 @@ def run_case(rnd, cs, job, acc):
         # anything keyed by the local id instead of the full id collides)
         from .meta import rename_model
         m, _ = rename_model(rnd, m)
+    for t in m["tasks"]:
+        # the same resource named twice in one allocation (as a team member, or as its own alternative): the derived
+        # money column is rate x booked time all the same
+        if "effort_min" in t and len(t.get("alloc", [])) == 1 and rnd.random() < 0.06:
+            if rnd.random() < 0.5:
+                t["alloc"] = t["alloc"] * 2
+            else:
+                t["alt"] = list(t["alloc"])
     project_tf = rnd.choice([None, None, "%Y-%m-%d %H:%M", "%d/%m/%Y"])
     if project_tf:
         m["timeformat"] = project_tf
